@@ -46,6 +46,11 @@ def sigNumber : SigMethod → Nat
 def EffOK (objs : List PObj) (e : Eff) : Prop :=
   ∃ o, objs[e.obj]? = some o ∧ e.pid = (o.pid : Int) ∧ e.owner = some o.ghost ∧ (e.kind = .kill → 0 < e.pid)
 
+/-- … and no OS call of ANY kind is made with a PID ≤ 0: for `kill` that is a process group, for setpriority /
+    ioprio_set / sched_setaffinity / prlimit PID 0 means "the calling process" (setpriority(2), ioprio_set(2),
+    sched_setaffinity(2), prlimit(2)) — such a call would not reach "the process with PID 0" at all -/
+def EffOKStrict (objs : List PObj) (e : Eff) : Prop := EffOK objs e ∧ 0 < e.pid
+
 /-- the values handed to the OS are the values the caller asked for -/
 def ArgOK : Call → EffKind → List Int → Prop
   | .signal _ m, .kill, a => a = [(sigNumber m : Int)]
